@@ -1667,7 +1667,7 @@ func (self *ReplicationAckDB) ProcessLeaderPushLock(glockIndex uint16, aofLock *
 		lockManager.lockDb.DoAckLock(lock, false)
 		return nil
 	}
-	if _, ok := self.commandAofs[glockIndex][lock.command.RequestId]; ok {
+	if _, ok := self.commandAofs[glockIndex][lock.command.RequestId]; ok || lock.locked == 0 {
 		self.ackGlocks[glockIndex].Unlock()
 		lockManager := lock.manager
 		lockManager.lockDb.DoAckLock(lock, false)
